@@ -327,7 +327,12 @@ class Ctx:
             io = call_outcome(impl, c)
             self.evaluations += 1
             bad = None
-            if co[0] == 'raise' or io[0] == 'raise':
+            if co[0] == 'val' and io[0] == 'raise' and any(isinstance(x, float) and math.isnan(x) for x in co[1]) \
+                    and io[1] == 'ValueError' and re.search(r'NaN|finite|nan', io[2] if len(io) > 2 else ''):
+                # the float model produced NaN where the implementation's constructors refuse NaN: symbols stand for finite
+                # reals in the tracer (np.isfinite(symbol) is True), so the refusal is not part of the model. Same outcome.
+                st['nan_rejected'] = st.get('nan_rejected', 0) + 1
+            elif co[0] == 'raise' or io[0] == 'raise':
                 st['raise'] += 1
                 if co[0] != io[0]:
                     bad = f"model {co[:2]} vs implementation {io[:2] if io[0]=='raise' else 'value'}"
@@ -525,8 +530,10 @@ class Ctx:
             'wall_s': round(wall, 2),
             'violations': len(seen) + (1 if (self.broken and not unknown) else 0),
         }
-        os.makedirs(os.path.join(VERIF, 'evidence'), exist_ok=True)
-        with open(os.path.join(VERIF, 'evidence', f"{self.pid}.json"), 'w') as fh:
+        # evidence under /verif/evidence describes /repo only; a run against a scratch worktree (AHRS_REPO) writes elsewhere
+        evdir = os.path.join(VERIF, 'evidence') if os.path.realpath(REPO) == '/repo' else os.path.join(VERIF, 'build', 'scratch-evidence')
+        os.makedirs(evdir, exist_ok=True)
+        with open(os.path.join(evdir, f"{self.pid}.json"), 'w') as fh:
             json.dump(_js(ev), fh, indent=1)
         for l in out_lines:
             print(l, flush=True)
